@@ -111,6 +111,147 @@ pair_criterion = FunctionContract(
 CONTRACTS = [pair_criterion]
 LEMMAS = []
 
+
+# ------------------------------------------------------------------ make_bonds: which distance searches are run, with what
+ResKey = TTuple(TInt, TStr, TInt, TStr, TStr)               # (mol_idx, chain, resid, resname, insertion_code)
+Call = TTuple(TInt, TReal, TBool, names=['residue', 'fudge', 'non_edges_given'])   # residue = -1: the whole system
+
+
+def setup_mb(cx):
+    eng = cx.eng
+    from pyvc.values import IterV
+    from pyvc.builtins import _int, list_append, setitem
+    from pyvc.interp import PyExc
+    nres = cx.val('n_residues', TInt)
+    cx.spec_env['n_residues'] = nres
+    cx.assume(nres.e >= 0)
+    reskey = cx.uf('reskey', [TInt], ResKey)
+    atoms_of = cx.uf('atoms_of', [TInt], TSeq(Node))       # the atoms of the k-th residue group
+    named = cx.uf('named', [TInt], TSet(PairKey))          # what _bonds_from_names returns for it
+    names_ok = cx.uf('names_ok', [TInt], TBool)            # ... or whether it raises KeyError
+    keymsg = cx.uf('keymsg', [TInt], TStr)
+    k_ = z3.Int('k')
+    cx.assume(z3.ForAll([k_], TSeq(Node).len(atoms_of(k_)) >= 0))
+    CALLS = cx.heap('CALLS', Box(TSeq(Call)))
+    FINAL_NE = cx.heap('FINAL_NE', cx.box('FINAL_NE', TSet(PairKey)))   # the non_edges of the whole-system search
+    RESSER = cx.heap('RESSER', cx.box('RESSER', TMap(Node, TInt)))
+    WARNED = cx.heap('WARNED', Box(TSeq(TStr)))
+
+    class ResAtoms:
+        def __init__(self, k):
+            self.k = k
+    groups = Obj('residue_groups')
+
+    def items(e):
+        def get(i):
+            i = _int(i)
+            o = Obj('idxs')
+            o.__dict__['res'] = i
+            o.__dict__['iter'] = SV(TSeq(Node), atoms_of(i))
+            return (wrap(ResKey, reskey(i)), o)
+        return IterV(nres.e, get)
+    groups.attrs['items'] = Builtin(items, 'residue_groups.items')
+    groups.attrs['values'] = Builtin(lambda e: Obj('groups.values'), 'residue_groups.values')
+    cx.spec_env['collect_residues'] = Builtin(lambda e, g, keys: groups, 'collect_residues')
+
+    def node_view(e, n):
+        o = Obj('atomdict')
+        o.attrs['__setitem__'] = Builtin(lambda e2, k, v: setitem(e2, RESSER, n, v) if k == '_res_serial' else
+                                         (_ for _ in ()).throw(EngineError('atom[%r] = ...' % (k,))), 'atom[]=')
+        return o
+    nodes = Obj('NodeView')
+    nodes.attrs['__getitem__'] = Builtin(node_view, 'nodes[]')
+    system = cx.obj('Graph', nodes=nodes)
+    ff = Obj('ForceField', name=cx.val('ffname', TStr))
+
+    def bfn(e, graph, resname, idxs, force_field):
+        if graph is not system or force_field is not ff:
+            raise EngineError('_bonds_from_names on another graph / force field')
+        k = idxs.__dict__['res']
+        if e.branch(names_ok(k)):
+            return SV(TSet(PairKey), named(k))
+        raise PyExc('KeyError', (SV(TStr, keymsg(k)),), e.line)
+    cx.spec_env['_bonds_from_names'] = Builtin(bfn, '_bonds_from_names')
+
+    def bfd(e, graph, nodes=None, non_edges=None, fudge=1.2):
+        if graph is not system:
+            raise EngineError('_bonds_from_distance on another graph')
+        from contracts.c15 import _real_
+        res = nodes.__dict__['res'] if nodes is not None else z3.IntVal(-1)
+        if non_edges is not None:
+            FINAL_NE.e = to_z3(non_edges, TSet(PairKey))
+        list_append(e, CALLS, (SV(TInt, res), SV(TReal, _real_(e, fudge)), non_edges is not None))
+    cx.spec_env['_bonds_from_distance'] = Builtin(bfd, '_bonds_from_distance')
+    log = Obj('LOGGER')
+    log.attrs['warning'] = Builtin(lambda e, *a, type=None, **k: list_append(e, WARNED, type), 'LOGGER.warning')
+    cx.spec_env['LOGGER'] = log
+    cx.spec_env['str'] = Builtin(lambda e, x: x.args[0] if type(x).__name__ == 'ExcValue' else (_ for _ in ()).throw(EngineError('str()')), 'str')
+    return dict(system=system, force_field=ff, allow_name=cx.val('allow_name', TBool), allow_dist=cx.val('allow_dist', TBool),
+                fudge=cx.val('fudge', TReal))
+
+
+SPEC_MB = {
+    # the residues whose bonds could not be taken from the names (and fall back to the distance search)
+    'fell_back': "lambda k: allow_name and not names_ok(k)",
+    'ne_upto': "lambda s, n: forall(lambda q: (q in s) == exists(lambda k: 0 <= k and k < n and allow_name and names_ok(k) and q in named(k)), PairKey)",
+}
+make_bonds_calls = FunctionContract(
+    F, 'make_bonds', 'C10', short='make_bonds[distance searches]', setup=setup_mb, spec_defs=SPEC_MB,
+    spec_env=dict(Node=Node, PairKey=PairKey),
+    region=dict(start="non_edges = set()", end="molecules = []"),
+    locals=dict(non_edges=TSet(PairKey), g_idx=TMap(TInt, TInt)),
+    requires=["len(old(CALLS)) == 0", "len(old(WARNED)) == 0"],
+    ghost_at={'entry': "g_idx = {}"},
+    ensures=[
+        # every distance search runs on the united system with the caller's fudge factor
+        "forall(lambda c: implies(0 <= c and c < len(CALLS), CALLS[c].fudge == fudge))",
+        # no distance search at all unless distance-based bonds are allowed
+        "implies(not allow_dist, len(CALLS) == 0)",
+        # with them allowed: the last search is the one over the whole system, and it is given as non-bonds exactly what the
+        # name-based step reported for the residues it could handle
+        "implies(allow_dist, len(CALLS) >= 1 and CALLS[len(CALLS) - 1].residue == -1 and CALLS[len(CALLS) - 1].non_edges_given and "
+        "   ne_upto(FINAL_NE, n_residues))",
+        # the searches before it are per-residue fall-backs: one for each residue whose names failed, in order, without non-bonds
+        "forall(lambda c: implies(0 <= c and c < len(CALLS) - 1, 0 <= CALLS[c].residue and CALLS[c].residue < n_residues and "
+        "   fell_back(CALLS[c].residue) and not CALLS[c].non_edges_given and g_idx[CALLS[c].residue] == c))",
+        "implies(allow_dist, forall(lambda k: implies(0 <= k and k < n_residues and fell_back(k), k in g_idx and 0 <= g_idx[k] and "
+        "   g_idx[k] < len(CALLS) - 1 and CALLS[g_idx[k]].residue == k)))",
+        # every atom of the k-th residue group is labelled with the serial k
+        "forall(lambda k, j: implies(0 <= k and k < n_residues and 0 <= j and j < len(atoms_of(k)) and "
+        "   forall(lambda k2, j2: implies(k < k2 and k2 < n_residues and 0 <= j2 and j2 < len(atoms_of(k2)), atoms_of(k2)[j2] != atoms_of(k)[j])), "
+        "   RESSER[atoms_of(k)[j]] == k))",
+        # one warning per residue whose names failed
+        "implies(not allow_name, len(WARNED) == 0)",
+    ],
+    modifies=['CALLS', 'FINAL_NE', 'RESSER', 'WARNED'],
+    loops={
+        'L1': LoopSpec(
+            inv=["forall(lambda c: implies(0 <= c and c < len(CALLS), CALLS[c].fudge == fudge and 0 <= CALLS[c].residue and "
+                 "   CALLS[c].residue < _i and fell_back(CALLS[c].residue) and not CALLS[c].non_edges_given and g_idx[CALLS[c].residue] == c))",
+                 "implies(not allow_dist, len(CALLS) == 0)",
+                 "implies(allow_dist, forall(lambda k: implies(0 <= k and k < _i and fell_back(k), k in g_idx and 0 <= g_idx[k] and "
+                 "   g_idx[k] < len(CALLS) and CALLS[g_idx[k]].residue == k)))",
+                 "ne_upto(non_edges, _i)",
+                 "forall(lambda k, j: implies(0 <= k and k < _i and 0 <= j and j < len(atoms_of(k)) and "
+                 "   forall(lambda k2, j2: implies(k < k2 and k2 < _i and 0 <= j2 and j2 < len(atoms_of(k2)), atoms_of(k2)[j2] != atoms_of(k)[j])), "
+                 "   RESSER[atoms_of(k)[j]] == k))",
+                 "implies(not allow_name, len(WARNED) == 0)"],
+            modifies=['CALLS', 'RESSER', 'WARNED', 'non_edges', 'g_idx'], locals=dict(g_idx=TMap(TInt, TInt), g_c0=TInt),
+            ghost_pre="g_c0 = len(CALLS)",
+            ghost_end="if len(CALLS) > g_c0:\n    g_idx[_i] = g_c0"),
+        'L1.1': LoopSpec(
+            inv=["forall(lambda j: implies(0 <= j and j < _i, RESSER[atoms_of(_iL1)[j]] == res_serial))",
+                 "forall(lambda k, j: implies(0 <= k and k < _iL1 and 0 <= j and j < len(atoms_of(k)) and "
+                 "   forall(lambda k2, j2: implies(k < k2 and k2 <= _iL1 and 0 <= j2 and j2 < len(atoms_of(k2)), atoms_of(k2)[j2] != atoms_of(k)[j])), "
+                 "   RESSER[atoms_of(k)[j]] == k))"],
+            modifies=['RESSER']),
+    },
+    canary=[("_bonds_from_distance(system, idxs, fudge=fudge)", "_bonds_from_distance(system, idxs)"),
+            ("_bonds_from_distance(system, non_edges=non_edges, fudge=fudge)", "_bonds_from_distance(system, fudge=fudge)"),
+            ("system.nodes[idx]['_res_serial'] = res_serial", "system.nodes[idx]['_res_serial'] = mol_idx")],
+)
+CONTRACTS.append(make_bonds_calls)
+
 import ast as _ast
 import os as _os
 
